@@ -102,7 +102,7 @@ def run_mode(ctx, pkg, mode, env=None, timeout=1800, mem_gb=6, what=None, max_re
             # the value generator (generated FillRandom) died: that is C18's property, here the item is just not covered
             ctx.note("%s: FillRandom of %s killed the child (%s); item skipped (decided by C18)" % (what, item, cls))
             ctx.cov.setdefault("counters", {})["items_skipped_because_fillrandom_dies"] = ctx.cov.get("counters", {}).get("items_skipped_because_fillrandom_dies", 0) + 1
-        elif last and any(str(last.get("what", "")).startswith(a) for a in advisory_deaths):
+        elif last and any((str(last.get("what", "")).startswith(a[4:]) and cls == "out-of-memory") if a.startswith("oom:") else str(last.get("what", "")).startswith(a) for a in advisory_deaths):
             ctx.note("%s: child died (%s) at '%s' of item %s: outside the property, item skipped" % (what, cls, last.get("what"), item))
             c = ctx.cov.setdefault("counters", {})
             c["advisory_child_deaths"] = c.get("advisory_child_deaths", 0) + 1
